@@ -198,11 +198,129 @@ theorem target_congr {d d' : Desc} {k : Key} (h : k % 3 = 2) (ht : d.targets = d
     rw [hr]
     rcases hcases with e | e <;> simp only [e]
 
-/-- `getResultForOutput` looks at the producer's tool and at the node's position among its outputs only -/
-theorem resultForOutput_congr {d d' : Desc} {c c' : Cmd} {i : Nat} (hv : d.isVirtual i = d'.isVirtual i)
-    (ht : c.tool = c'.tool) (hi : c.outputs.idxOf i = c'.outputs.idxOf i) (cv : Val) :
+/-! ### a successful command's value records its output list -/
+
+theorem godel_eq_codeOutputs : ∀ l : List Nat, godel l = codeOutputs l
+  | [] => rfl
+  | a :: l => by simp only [godel, codeOutputs, godel_eq_codeOutputs l]
+
+theorem codeOutputs_inj (a b : List Nat) (h : codeOutputs a = codeOutputs b) : a = b :=
+  godel_inj a b (by rw [godel_eq_codeOutputs, godel_eq_codeOutputs, h])
+
+theorem posScan_zero_code (i : Nat) : ∀ f z, posScan i f 0 z = 0
+  | 0, _ => rfl
+  | f + 1, _ => by simp [posScan]
+
+/-- skipping `a` zero bits -/
+theorem posScan_zeros (i : Nat) : ∀ (a f n z : Nat), n ≠ 0 → posScan i (f + a) (2 ^ a * n) z = posScan i f n (z + a)
+  | 0, f, n, z, _ => by simp
+  | a + 1, f, n, z, hn => by
+    have e : 2 ^ (a + 1) * n = 2 * (2 ^ a * n) := by rw [Nat.pow_succ]; ac_rfl
+    have hpos : 0 < 2 ^ a * n := Nat.mul_pos (Nat.pow_pos (by decide)) (Nat.pos_of_ne_zero hn)
+    have h1 : 2 * (2 ^ a * n) ≠ 0 := by omega
+    have h2 : 2 * (2 ^ a * n) % 2 = 0 := by omega
+    have h3 : 2 * (2 ^ a * n) / 2 = 2 ^ a * n := by omega
+    rw [show f + (a + 1) = (f + a) + 1 from rfl, e]
+    simp only [posScan, h1, h2, h3, if_true, if_false]
+    rw [posScan_zeros i a f n (z + 1) hn]
+    congr 1
+    omega
+
+/-- reading the one bit that ends an element -/
+theorem posScan_one (i f m z : Nat) :
+    posScan i (f + 1) (2 * m + 1) z = if z = i then 0 else 1 + posScan i f m 0 := by
+  have h1 : 2 * m + 1 ≠ 0 := by omega
+  have h2 : ¬ (2 * m + 1) % 2 = 0 := by omega
+  have h3 : (2 * m + 1) / 2 = m := by omega
+  simp only [posScan, h1, h2, h3, if_false]
+
+/-- number of bits of the code of a list -/
+def codeBits : List Nat → Nat
+  | [] => 0
+  | a :: l => a + 1 + codeBits l
+
+theorem posScan_code (i : Nat) : ∀ (l : List Nat) (f : Nat), codeBits l ≤ f → posScan i f (codeOutputs l) 0 = l.idxOf i
+  | [], f, _ => by simp [codeOutputs, posScan_zero_code]
+  | a :: l, f, hf => by
+    simp only [codeBits] at hf
+    obtain ⟨f', rfl⟩ : ∃ f', f = (f' + 1) + a := ⟨f - a - 1, by omega⟩
+    simp only [codeOutputs]
+    rw [posScan_zeros i a (f' + 1) _ 0 (by omega), posScan_one, posScan_code i l f' (by omega), List.idxOf_cons]
+    by_cases h : a = i
+    · simp [h]
+    · have hb : (a == i) = false := by simp [h]
+      have h0 : ¬ 0 + a = i := by omega
+      simp only [h0, hb, if_false, cond_false]
+      exact Nat.add_comm _ _
+
+theorem codeBits_le_code : ∀ l : List Nat, codeBits l ≤ codeOutputs l
+  | [] => Nat.le_refl 0
+  | a :: l => by
+    have ih := codeBits_le_code l
+    have h2 : a + 1 ≤ 2 ^ a := Nat.lt_two_pow_self
+    simp only [codeBits, codeOutputs]
+    calc a + 1 + codeBits l ≤ (a + 1) * (2 * codeOutputs l + 1) := by
+          rw [Nat.mul_add, Nat.mul_one]
+          have : codeOutputs l ≤ (a + 1) * (2 * codeOutputs l) := by
+            calc codeOutputs l ≤ 1 * (2 * codeOutputs l) := by omega
+              _ ≤ (a + 1) * (2 * codeOutputs l) := Nat.mul_le_mul_right _ (by omega)
+          omega
+      _ ≤ 2 ^ a * (2 * codeOutputs l + 1) := Nat.mul_le_mul_right _ h2
+
+theorem successValue_payload (c : Cmd) (h : Nat) :
+    successValue c h / 8 = h % MOD + MOD * codeOutputs c.outputs := by
+  have e : ∀ x : Nat, (8 * x + 5) / 8 = x := by intro x; omega
+  exact e _
+
+theorem payload_div_MOD (x code : Nat) : (x % MOD + MOD * code) / MOD = code := by
+  have hM : 0 < MOD := by decide
+  rw [Nat.add_mul_div_left _ _ hM, Nat.div_eq_of_lt (Nat.mod_lt _ hM)]
+  omega
+
+/-- in the value a command produces under its current definition the recorded position of a node is its position
+among the command's outputs (what `getNthOutputInfo(idx)` reads) -/
+theorem recordedPos_successValue (c : Cmd) (h i : Nat) :
+    recordedPos (successValue c h / 8) i = c.outputs.idxOf i := by
+  rw [successValue_payload]
+  unfold recordedPos
+  rw [payload_div_MOD]
+  exact posScan_code i c.outputs _ (codeBits_le_code _)
+
+/-- `mix` only looks at the payload modulo MOD: the record of the output at position `j` is `mix h j` -/
+theorem mix_successValue (c : Cmd) (h j : Nat) : mix (successValue c h / 8) j = mix h j := by
+  rw [successValue_payload]
+  unfold mix MOD
+  omega
+
+/-- the value records the output list: different output lists give different values -/
+theorem successValue_outputs {c c' : Cmd} {h h' : Nat} (e : successValue c h = successValue c' h') :
+    c.outputs = c'.outputs := by
+  have e' : successValue c h / 8 = successValue c' h' / 8 := by rw [e]
+  rw [successValue_payload, successValue_payload] at e'
+  have := congrArg (· / MOD) e'
+  simp only [payload_div_MOD] at this
+  exact codeOutputs_inj _ _ this
+
+/-- for a non-virtual node `getResultForOutput` does not look at the producer's definition -/
+theorem resultForOutput_nonvirtual {d d' : Desc} {c c' : Cmd} {i : Nat}
+    (hv : d.isVirtual i = false) (hv' : d'.isVirtual i = false) (cv : Val) :
     resultForOutput d c i cv = resultForOutput d' c' i cv := by
   unfold resultForOutput
-  rw [hv, ht, hi]
+  simp [hv, hv']
+
+/-- for a virtual node it looks at the producer's tool class (phony / symlink / other) only -/
+theorem resultForOutput_virtual {d d' : Desc} {c c' : Cmd} {i : Nat}
+    (hv : d.isVirtual i = true) (hv' : d'.isVirtual i = true)
+    (hp : c.tool = .phony ↔ c'.tool = .phony) (hs : c.tool = .symlink ↔ c'.tool = .symlink) (cv : Val) :
+    resultForOutput d c i cv = resultForOutput d' c' i cv := by
+  unfold resultForOutput
+  simp only [hv, hv', and_true, true_and]
+  by_cases a : c.tool = .phony
+  · simp [a, hp.1 a]
+  · have a' : ¬ c'.tool = .phony := fun x => a (hp.2 x)
+    by_cases b : c.tool = .symlink
+    · simp [b, hs.1 b]
+    · have b' : ¬ c'.tool = .symlink := fun x => b (hs.2 x)
+      simp [a, a', b, b']
 
 end LLBuild.BuildSystemClient
